@@ -203,6 +203,55 @@ def rating_histories(run, cols, regs):
                             theorem="C09_cache_hit_needs_equal_key")
 
 
+def selection_sequences(run, small_cols, big_cols):
+    """one curve rated several times with feature selections that share
+    their continuous features but differ in the binary exclusion criteria
+    (and the other way round), on a curve that fails a criterion (fewer than
+    600 approach points) and on one that passes: every value is the
+    standalone rater's for that selection"""
+    from nanite.rate import IndentationRater
+    con = IndentationRater.get_feature_names(which_type="continuous")
+    bins = IndentationRater.get_feature_names(which_type="binary")
+    sels = [con + [b_ for b_ in bins if "size" in b_], list(con),
+            con + bins, con[:6] + [b_ for b_ in bins if "size" in b_],
+            con[:6], None, list(con)]
+    for cname, cols in (("short-approach", small_cols),
+                        ("long-approach", big_cols)):
+        for reg in ("Decision Tree", "SVR (linear kernel)"):
+            for order in (list(range(len(sels))),
+                          list(range(len(sels)))[::-1]):
+                idnt = states(cols)["fitted"]()
+                for j in order:
+                    nm = sels[j]
+                    key = f"selection-sequence:{cname}:{reg}:{order[0]}:{j}"
+                    run.case({"scenario": "selection-sequence",
+                              "curve": cname, "regressor": reg,
+                              "selection": j, "first": order[0]},
+                             kind="selection-sequence")
+                    try:
+                        with warnings.catch_warnings():
+                            warnings.simplefilter("ignore")
+                            v = idnt.rate_quality(
+                                regressor=reg,
+                                names=None if nm is None else list(nm))
+                            w = standalone(
+                                states(cols)["fitted"](), reg,
+                                names=None if nm is None else list(nm))
+                    except BaseException as e:
+                        run.failing(SITE, key, f"selection {j} with {reg} "
+                                    f"raised {type(e).__name__}: {e}",
+                                    payload={"kind": "rerun"})
+                        continue
+                    if v != w and not (np.isnan(v) and np.isnan(w)):
+                        run.failing(
+                            SITE, key, f"{cname} curve, {reg}: selection "
+                            f"{j} ({'all' if nm is None else len(nm)} "
+                            f"features) rated after {order[:order.index(j)]} "
+                            f"on the same curve gives {v}, the standalone "
+                            f"rater {w}", payload={"kind": "rerun"},
+                            theorem="C09_cache_hit_needs_equal_key")
+
+
 def memory_training_cases(run, cols):
     """an in-memory training set (X, y) used for several trainings in one
     process with a regressor that standardises its input: every fresh, equally
@@ -482,6 +531,7 @@ def check(run):
                              "Decision Tree"] if run.tier == "quick" else
                   ["SVR (linear kernel)", "SVR (RBF kernel)", "Decision Tree",
                    "Extra Trees", "AdaBoost"])
+    selection_sequences(run, cols, big)
     memory_training_cases(run, big)
     override_cases(run, big)
     failed_request_cases(run, big)
